@@ -43,7 +43,7 @@ def small_scope(focus, quick):
             alpha2 = alpha + [op("lock", 2), op("unlock", 2)]
             for rec in (False, True):
                 progs += list(K.enum_small(alpha, 3, 2, rec=[rec]))
-                progs += list(K.enum_small(alpha2, 2, 3, rec=[rec, not rec]))
+                progs += list(K.enum_small(alpha2, 2, 2, rec=[rec, not rec]))
     elif focus == "sem":
         alpha = [op("acq", 1), op("rel", 1), op("acqt", 1, 0, 0), op("acqt", 1, 0, 2), op("sleep", 0, 0, 2)]
         for cap in (0, 1):
@@ -189,6 +189,10 @@ def run(ctx, focus, n_random_quick, n_random_thorough, max_actors=4, max_ops=6, 
                 and all(o["op"] in MC_OPS for a in p["actors"] for o in a) and not any(p.get("perm", []))]
         ctx.rng.shuffle(cand)
         mcp = [dict(json.loads(json.dumps(p)), gran="mc", timed=False) for p in cand[: (5 if quick else 25)]]
+        # plus the fixed MC-granularity programs that concern this focus (e.g. two waiters and one notify_all for "cv")
+        want = {"mutex": {"lock", "trylock"}, "sem": {"acq"}, "bar": {"bar"}, "comm": {"put", "puta", "get", "geta"},
+                "cv": {"cvwait", "cvwaitfor"}}[focus]
+        mcp += [p for p in M.regression_progs() if any(o["op"] in want for a in p["actors"] for o in a)]
         if mcp:
             res = M.explore_all(ctx, mcp, ["dpor"], ["--cfg=model-check/max-errors:-1"], timeout=120)
             mrej, _ = M.validate_explorations(ctx, mcp, res)
